@@ -531,3 +531,38 @@ def enum_tests(fn, adt_rx, variant):
             out.append((sw[0], ve[0], others[0]))
     return out
 
+
+FUTURE_CTORS = r"mpsc::(bounded::)?Sender(<.*>)?::(send|reserve|reserve_owned|send_timeout|closed)$|oneshot::Sender(<.*>)?::closed$"
+
+
+def dropped_futures(fn, rx=FUTURE_CTORS):
+    """calls that only *create* a future (an `async fn` / a channel `send`) whose result is never used: not awaited, not stored, not
+    handed on.  A lazily evaluated future that is dropped does nothing - the message is never sent.  (`let _ = tx.send(x);` without
+    `.await` compiles without a warning.)"""
+    out = []
+    for c in fn.calls(rx):
+        if c.from_macro or not c.dest or len(c.dest) != 1:
+            continue
+        if not local_used(fn, c.dest[0]):
+            out.append(c)
+    return out
+
+
+def check_no_dropped_futures(ctx, fx, rule, key_rx, label, floor):
+    """obligation `<label>/every-send-future-is-awaited` over the coroutine bodies whose key matches key_rx (see dropped_futures)"""
+    n, bad = 0, []
+    for key in sorted(fx.find(key_rx)):
+        fn = fx.fn(key)
+        if fn is None or not fn.is_coroutine:
+            continue
+        cs = [c for c in fn.calls(FUTURE_CTORS) if not c.from_macro]
+        if not cs:
+            continue
+        n += len(cs)
+        ctx.bodies.add((fx.cfg, key))
+        for c in dropped_futures(fn):
+            bad.append((short(key), fn.site(c.node)))
+    ctx.anchor(rule, "channel send futures built in %s" % label, n, floor, cfg=fx.cfg)
+    ctx.ob(rule, "%s/every-send-future-is-awaited" % label, not bad, cfg=fx.cfg, site=bad[0][1] if bad else "",
+           detail="a future built by a channel send that is dropped without being polled sends nothing: %s" % bad)
+
